@@ -8,7 +8,7 @@ from itertools import product
 from .. import fmt
 from ..mir import const_int
 from ..sym import Explorer, is_const, show, walk
-from ..table import Table, Undecided, enum_variants, leaf_option, leaf_variant
+from ..table import Composer, Table, Undecided, enum_variants, leaf_option, leaf_variant
 
 TECHNIQUE = "static analysis: decision tables extracted from MIR switch nests and checked exhaustively over their finite enum domains (partition, totality, injectivity, mutual inverse, equality with reference tables); format-template and slice-constant agreement"
 TRUSTED = ["rustc nightly MIR", "pv.sym / pv.table decision-table extraction", "reference tables of FFXIV race codes, tribes, platform tags and category ids written into this rule"]
@@ -148,7 +148,8 @@ def run(ctx):
     if not rb:
         ctx.fail_closed("RACEID", "race::get_race_id not found")
     elif supported:
-        t = Table(rb)
+        comp = Composer(prog)
+        t = Table(rb, composer=comp)
         if not t.is_table:
             ctx.fail_closed("RACEID", "get_race_id is not a loop-free table function")
         else:
@@ -168,7 +169,13 @@ def run(ctx):
                     return None
 
                 try:
-                    leaf = leaf_option(t.lookup(point, ev).env.local(0))
+                    hit = t.lookup(point, ev)
+                    leaf = leaf_option(hit.env.local(0))
+                    if leaf is not None and leaf[0] == "Some" and not is_const(leaf[1]):
+                        # the code is selected by a further table step (e.g. a pair indexed by gender): compose it
+                        v = comp.absval(leaf[1], point)
+                        if isinstance(v, int):
+                            leaf = ("Some", ("k", v, "int"))
                 except Undecided as e:
                     ctx.fail_closed("RACEID", f"get_race_id({rn},{tn},{gn}): {e}")
                     continue
